@@ -10,6 +10,7 @@ import (
 	"verif/internal/descgen"
 	"verif/internal/ir"
 	"verif/internal/pipeline"
+	"verif/internal/refmodel"
 	"verif/rt"
 	"verif/rt/spec"
 )
@@ -54,9 +55,9 @@ func checkC13(r *Run) {
 func checkC15(r *Run) {
 	type mk = func() *descgen.Entry
 	var makers []mk
-	cur := []mk{descgen.K1, descgen.K3, descgen.K5, func() *descgen.Entry { return descgen.K6(0) }, descgen.K7, descgen.K9, func() *descgen.Entry { return descgen.K10(false) }, descgen.K2, descgen.K8, descgen.K4}
+	cur := []mk{descgen.K1, descgen.K3, descgen.K5, func() *descgen.Entry { return descgen.K6(0) }, func() *descgen.Entry { return descgen.K6(3) }, descgen.K7, descgen.K9, descgen.K8, func() *descgen.Entry { return descgen.K10(false) }, descgen.K2, descgen.K4}
 	for i, m := range cur {
-		if r.thorough() || i < 6 {
+		if r.thorough() || i < 8 {
 			makers = append(makers, m)
 		}
 	}
@@ -336,6 +337,78 @@ func checkC11(r *Run) {
 			v.Tags = append(v.Tags, opt, form)
 			cases = append(cases, v)
 			pairs = append(pairs, rt.Pair{A: base.Name, B: v.Name, PRF: baseName, Label: opt + "/" + form, ModelChecks: true})
+			total++
+		}
+		// layered edits: the base already configures a field that occurs at several paths under its
+		// Message.Field key; the variant adds an explicit empty list under ONE full path
+		// (only that occurrence loses the option)
+		count := map[string]int{}
+		for _, o := range occ {
+			count[o.Key]++
+		}
+		var multi []int
+		for i, o := range occ {
+			if count[o.Key] > 1 {
+				multi = append(multi, i)
+			}
+		}
+		for j := 0; j < r.pick(2, 4) && len(multi) > 0; j++ {
+			o := occ[multi[rnd.Intn(len(multi))]]
+			opt := []string{"validators", "plan_modifiers"}[j%2]
+			mkBase := func() *descgen.Entry {
+				e := m()
+				plain(e)
+				applyOption(e.Cfg, opt, o.Key, 900+j)
+				return e
+			}
+			lb := caseFrom(descgen.Rename(mkBase(), fmt.Sprintf("%sl%d", baseName, j)))
+			ve := mkBase()
+			if opt == "validators" {
+				ve.Cfg.Validators[o.Path] = []string{}
+			} else {
+				ve.Cfg.PlanModifiers[o.Path] = []string{}
+			}
+			v := caseFrom(descgen.Rename(ve, fmt.Sprintf("%sl%de", baseName, j)))
+			v.Tags = append(v.Tags, opt, "path-empty-list")
+			cases = append(cases, lb, v)
+			pairs = append(pairs, rt.Pair{A: lb.Name, B: v.Name, PRF: baseName, Label: opt + "/path-empty-list-over-key", ModelChecks: true})
+			total++
+		}
+		// an excluded field leaves its attribute name free: the base excludes X, the variant also
+		// renames a sibling of X to X's attribute name
+		for j := 0; j < r.pick(1, 3); j++ {
+			o := occ[rnd.Intn(len(occ))]
+			var sib *ir.Field
+			live := 0
+			for _, fl := range o.Msg.Fields {
+				if !fl.Embed {
+					live++
+					if fl != o.Field && sib == nil {
+						sib = fl
+					}
+				}
+			}
+			if live < 3 || sib == nil {
+				continue
+			}
+			mkBase := func() *descgen.Entry {
+				e := m()
+				plain(e)
+				applyOption(e.Cfg, "exclude_fields", o.Key, 0)
+				return e
+			}
+			be2 := mkBase()
+			xa := specPaths(refmodel.Build("x", be2.File, be2.Cfg))[o.Path]
+			if xa == nil {
+				continue
+			}
+			lb := caseFrom(descgen.Rename(be2, fmt.Sprintf("%sn%d", baseName, j)))
+			ve := mkBase()
+			ve.Cfg.NameOverrides = map[string]string{o.Msg.Name + "." + sib.Name: xa.Attr}
+			v := caseFrom(descgen.Rename(ve, fmt.Sprintf("%sn%dr", baseName, j)))
+			v.Tags = append(v.Tags, "name_overrides", "reuses-excluded-name")
+			cases = append(cases, lb, v)
+			pairs = append(pairs, rt.Pair{A: lb.Name, B: v.Name, PRF: baseName, Label: "name_overrides/reuses-excluded-name", ModelChecks: true})
 			total++
 		}
 	}
